@@ -355,7 +355,15 @@ func (c *CheckCtx) checkPrinter(kinds []kindInfo) map[string][]string {
 					want = append(want, s.Name)
 				}
 			}
-			c.addOb(pn+"/trace/source-order", "trace", site, strings.Join(got, ",") == strings.Join(want, ","),
+			orderOK := strings.Join(got, ",") == strings.Join(want, ",")
+			if !orderOK && (c.OrderByGrammar[k.Name] || (k.Named != nil && c.OrderByGrammar[k.Named.Obj().Name()])) {
+				// the struct declares its fields in another order than the printer emits them: the declared order is only a
+				// convention of pkg/ast/node.go; the order the property speaks of is the grammar's, and that is what the
+				// conserve obligations of this run decide for every rule that builds this kind
+				orderOK = true
+				c.Notes = append(c.Notes, fmt.Sprintf("%s: declared field order %v differs from the printer's order %v; the order is decided by the grammar-side conserve obligations", k.Name, want, got))
+			}
+			c.addOb(pn+"/trace/source-order", "trace", site, orderOK,
 				fmt.Sprintf("printer emits %v, the node declares its parts in source order %v", got, want))
 			// defaults
 			var dbad []string
